@@ -15,22 +15,30 @@ trusted and cross-checked by the compile probes (lib/eng_tables.py, probes/gen_t
                          `Arc<T>` (defects D2a, D2b);
 * `cells_static`      — `Collect for Cell<T>` / `RefCell<T>` require `T: 'static`;
 * `unsound_witnesses` — for tables containing such an impl, explicit derivations with an uncovered
-                         holder, by the `from_mut` route (D2a) and the `Gc::write` route (D2b).
+                         holder, by the `from_mut` route (D2a) and the `Gc::write` route (D2b);
+* `unsound_witness_client_index`, `mutant_witness` — an `IndexWrite<I>` impl whose index type is
+                         not closed (`where Self: Index<I>` only) admits a downstream `Index` impl
+                         that looks through a `Gc`: uncovered derivation; the mutated `Vec` entry is
+                         rejected by `Table.ok`, the crate's entry is accepted.
 -/
 namespace GcArena.C13
 open GcArena.WriteCap
 
 /-- Whatever the table, if it satisfies `Table.ok` — every safe constructor is `Gc::write` with a
 barrier, `from_static` with a `'static` bound, or `from_mut`; every `DerefWrite` / `IndexWrite` /
-`as_write` receiver owns its target exclusively **or** bounds it by `'static`; `field!` is a pure
-pattern; every `Unlock` impl stays in place behind an `unsafe fn`; no safe lock accessor hands out
-the cell without a barrier — then every item derivable by safe code is covered: its place is
+`as_write` receiver owns its target exclusively **or** bounds it by `'static`; every `IndexWrite`
+impl constrains its index type so that the `Index::index` body that runs is upstream's (std's /
+hashbrown's) own element projection, which stays inside the receiver's own storage — never a
+downstream crate's (`ProjImpl.idxClosed`); `DerefWrite` / `IndexWrite` are `unsafe trait`s;
+`field!` is a pure pattern; every `Unlock` impl stays in place behind an `unsafe fn`; no safe lock
+accessor hands out the cell without a barrier, and `unlock_unchecked` / the raw accessors are only
+called from `Write::unlock`, `unsafe fn`s or after a barrier — then every item derivable by safe code is covered: its place is
 pointer-free, or a write barrier has been applied to every allocated object through which the
 place's storage is reachable.  Hence every `unlock`ed store is a guarded store of the collector
 model, to which C01 applies. -/
 theorem covered (t : Table) (hok : t.ok = true) (env : Env) (B : Obj → Prop) (it : Item)
     (h : Der t env B it) : Covered env B it := by
-  obtain ⟨hc, hp, hu, hf, hfm⟩ := Table.ok_unpack hok
+  obtain ⟨hc, hp, hu, hf, hfm, hrs, hmt⟩ := Table.ok_unpack hok
   induction h with
   | gcWrite c o pf hm hk hs hb =>
     right
@@ -58,8 +66,8 @@ theorem covered (t : Table) (hok : t.ok = true) (env : Env) (B : Obj → Prop) (
   | fieldThroughDeref p pf o why hw _ _ => rw [hfm] at hw; cases hw
   | proj pi p pf k hm _ hpt ih =>
     have hok' := hp pi hm
-    simp only [ProjImpl.ok, Bool.or_eq_true] at hok'
-    rcases hok' with hex | hst
+    simp only [ProjImpl.ok, Bool.and_eq_true, Bool.or_eq_true] at hok'
+    rcases hok'.1 with hex | hst
     · rcases ih with ih | ih
       · left; simp_all [Item.ptrFree]
       · right
@@ -68,6 +76,15 @@ theorem covered (t : Table) (hok : t.ok = true) (env : Env) (B : Obj → Prop) (
         rw [holders_projPlace_exclusive env _ p k hex] at ho
         exact ih o ho
     · left; simp [Item.ptrFree, hst]
+  | indexThroughClient pi p pf o hm _ hopen _ _ =>
+    have hok' := hp pi hm
+    simp only [ProjImpl.ok, Bool.and_eq_true] at hok'
+    rw [hopen] at hok'
+    exact absurd hok'.2 (by decide)
+  | clientMarkerImpl p pf o hno _ _ => rw [hmt] at hno; cases hno
+  | rawSite r p hm hbad =>
+    have := hrs r hm
+    simp [hbad] at this
   | unlock u p pf _ _ _ ih => exact ih
   | unlockElsewhere u p q pf hm hip _ _ =>
     have := hu u hm
@@ -130,6 +147,43 @@ theorem unsound_witnesses (t : Table) (pi : ProjImpl) (hpi : pi ∈ t.projs)
   exact ⟨fun c hc hk hs => unsound_witness_from_mut t pi c hpi hex hns hc hk hs,
          fun c hc hk hs => unsound_witness_gc_write t pi c hpi hex hns hc hk hs⟩
 
+/-- Mutant shape "index type bounded only by `Self: Index<I>`": objects 1 and 2, `Gc::write`
+barriers 2 (the vector), the client's `Index<Local>` impl looks through the `Gc` stored in it and
+returns a reference into object 1, which was never barriered. -/
+theorem unsound_witness_client_index (t : Table) (pi : ProjImpl) (c : Ctor)
+    (hpi : pi ∈ t.projs) (hk : pi.kind = .index) (hopen : pi.idxClosed t.projs = false)
+    (hc : c ∈ t.ctors) (hck : c.kind = .gcWrite) (hs : c.isUnsafe = false) :
+    ∃ env B it, Der t env B it ∧ ¬ Covered env B it := by
+  refine ⟨⟨fun _ => []⟩, fun o => o = 2, .cap (.obj 1) false, ?_, ?_⟩
+  · exact Der.indexThroughClient pi (.obj 2) false 1 hpi hk hopen
+      (Der.gcWrite c 2 false hc hck hs (fun _ => rfl))
+  · intro h
+    rcases h with h | h
+    · simp [Item.ptrFree] at h
+    · have h1 : (1 : Nat) = 2 := h 1 (by simp [Item.place, holders])
+      exact absurd h1 (by decide)
+
+open GcArena.WriteCap.Example in
+/-- The delivered mutant. With the slice entries as extracted:
+* the crate's `IndexWrite<I> for Vec<T> where [T]: IndexWrite<I>, Self: Index<I>` is accepted
+  (`I` ranges over the six concrete std index types of `[T]`);
+* the mutated `IndexWrite<I> for Vec<T> where Self: Index<I>` is rejected, and so is the whole
+  table containing it, and it admits an uncovered derivation;
+* the `delegates` form is rejected as soon as the delegate's own entries are not all concrete, for
+  a fundamental receiver (`Box<Local>` is local to a downstream crate), and for the analogous array
+  mutant `where [T]: Index<I>` (std's array impl forwards to the slice's `Index` impl). -/
+theorem mutant_witness :
+    (tableWith (sliceEntries ++ [vecCurrent])).ok = true ∧
+    vecMutant.ok (sliceEntries ++ [vecMutant]) = false ∧
+    (tableWith (sliceEntries ++ [vecMutant])).ok = false ∧
+    (∃ env B it, Der (tableWith (sliceEntries ++ [vecMutant])) env B it ∧ ¬ Covered env B it) ∧
+    vecCurrent.ok (vecMutant :: { vecMutant with recv := .slice } :: sliceEntries) = false ∧
+    ({ vecCurrent with recv := .box }).ok (sliceEntries ++ [vecCurrent]) = false ∧
+    arrayMutant.ok (sliceEntries ++ [arrayMutant]) = false := by
+  refine ⟨by decide, by decide, by decide, ?_, by decide, by decide, by decide⟩
+  exact unsound_witness_client_index _ vecMutant gcWriteCtor (by decide) rfl (by decide)
+    (by decide) rfl rfl
+
 /-- Non-vacuity: with the current table, `Gc::write(mc, g)` on object 3, a field projection and an
 `unlock` are derivable (so `covered` is about a non-empty relation) … -/
 example : Der Generated.derefWriteTable ⟨fun _ => []⟩ (fun o => o = 3) (.cap (.field (.obj 3) 0) false) := by
@@ -138,7 +192,7 @@ example : Der Generated.derefWriteTable ⟨fun _ => []⟩ (fun o => o = 3) (.cap
 
 /-- … and the hypothesis of `covered` is falsifiable: the pinned tree's table shape fails it. -/
 example : Table.ok { Generated.derefWriteTable with
-    projs := [{ kind := .deref, recv := .rc, text := "Rc<T>", targetStatic := false, gate := "" }] } = false := by
+    projs := [{ kind := .deref, recv := .rc, text := "Rc<T>", targetStatic := false, idx := .na, gate := "" }] } = false := by
   decide
 
 end GcArena.C13
